@@ -692,6 +692,10 @@ func (b *bitstream) readNsecs(length uint64) (int, bool, uint8, error) {
 	if err != nil {
 		return 0, false, 0, err
 	}
+	if d.Sign() < 0 {
+		msg := fmt.Sprintf("invalid timestamp fraction: %v", d)
+		return 0, false, 0, &SyntaxError{msg, b.pos}
+	}
 
 	nsec, err := d.ShiftL(9).trunc()
 	if err != nil || nsec < 0 || nsec > 999999999 {
